@@ -127,7 +127,8 @@ func checkNewCall(
 	constructors util.TypeAssociationRegistry,
 	currentFunction string,
 ) *ConstructorViolation {
-	ident, ok := call.Fun.(*ast.Ident)
+	// (new)(T) is the same allocation
+	ident, ok := ast.Unparen(call.Fun).(*ast.Ident)
 	if !ok || ident.Name != "new" {
 		return nil
 	}
